@@ -30,6 +30,10 @@ def run_mutation(pid, mod, m, idx):
         if pos < 0:
             return "stale", "occurrence %d not found" % occ
     new = src[:pos] + m["new"] + src[pos + len(m["old"]):]
+    for o2, n2 in m.get("also", []):        # further edits of the same file (e.g. a declaration and its `override` marker)
+        if new.count(o2) < 1:
+            return "stale", "text not found: " + o2[:40]
+        new = new.replace(o2, n2, 1)
     os.makedirs(os.path.join(WORK, "mut"), exist_ok=True)
     var = os.path.join(WORK, "mut", "%s_%d_%s" % (pid, idx, os.path.basename(real)))
     with open(var, "w", encoding="latin-1") as f:
